@@ -1,4 +1,6 @@
 import LunarVerif.Proofs.C06Ops
+import LunarVerif.Proofs.C06Obs3
+import LunarVerif.Proofs.C06Live
 /-!
 # C06 — Queued requests: one verdict within TTL, priority order, bounded queue
 
@@ -146,6 +148,25 @@ example :
     x.s.heap.map (·.ts) = [2] ∧ holds ⟨5, 2000, 1, 1000⟩ x.s.trace.reverse = true := by
   decide +kernel
 
+/-- FIFO by ARRIVAL, under every schedule: the arrival order is the order of the `queued` events
+of the observable history; whenever the loop is about to take the next request, no waiter of the
+popped minimum's priority that could be served was queued BEFORE it.  (Holds since a re-enqueued
+request keeps its first stamp — repair F06a; before, a refused attempt moved a request behind later
+arrivals.)  The same on the history alone is the conjunct `fifoOk` of `safety_all_schedules`. -/
+theorem fifo_by_arrival (cfg : Cfg) (t0 : Nat) (acts : List Act) :
+    let s := run cfg (St.init t0) acts
+    ∀ m, s.loop = .running → minItem s.heap = some m →
+      ∀ j, (s.reqs j).pc = .parked → (s.reqs j).st = .enqueued → (s.reqs j).prio = m.prio →
+        queuedBefore s.trace j m.id = false := by
+  intro s m hl hm j hp hs hpr
+  have hall := invAll_run cfg acts (St.init t0) (invAll_init cfg t0)
+  have hf := (fifo_strict cfg t0 acts).2.2 m hl hm j hp hs hpr
+  cases hq : queuedBefore s.trace j m.id with
+  | false => rfl
+  | true =>
+    have := hall.o2.ob j m.id hq
+    exact absurd hf (by omega)
+
 /-- The shared queue alone (level L1 of the harness drives the real `memoryQueue` against this):
 a dequeue hands out an entry that is minimal for (priority, timestamp) among ALL entries — whatever
 was enqueued, re-enqueued or removed (from any position) before — and removes exactly that entry. -/
@@ -253,6 +274,39 @@ example :
     (y.s.reqs 1).res = .timeout ∧ (y.s.reqs 1).dones = 1 ∧ holds cfg y.s.trace.reverse = true := by
   decide +kernel
 
+/-- Liveness of the verdict under an explicit fairness hypothesis ("no later than its TTL", model
+level).  Let `pre` be ANY schedule; in the state it leads to let the loop be parked and the watcher
+idle — (F1) the watcher starts its scan at such a moment —, let request `i` be registered, without
+verdict and past its expiry instant; let `mid` be ANY continuation — arrivals, returns, removals,
+clock advances, loop steps, other watcher steps, even `cancel` — in which (F2) the loop's timer does
+not fire and (F3) the watcher takes at least `2 n + 1` steps `wStep 0` (n = number of requests so
+far: enough to walk through a whole scan).  Then after the scan and `mid`, request `i` has its
+verdict: exactly one Done.  Without the fairness hypotheses the conclusion is false (the watcher
+may never run; or the loop may hold the request at every single scan). -/
+theorem eventually_verdict (cfg : Cfg) (t0 : Nat) (pre mid : List Act) (i : Nat) :
+    let s := run cfg (St.init t0) pre
+    s.loop = .idle → s.watcher = .idle →
+    i < s.n → (s.reqs i).inMap = true → (s.reqs i).dones = 0 → (s.reqs i).arrival + cfg.ttl < s.now →
+    (∀ a ∈ mid, a ≠ .loopFire) → 2 * s.n + 1 ≤ mid.count (.wStep 0) →
+    let s' := run cfg s (.wScan :: mid)
+    (s'.reqs i).dones = 1 ∧ (s'.reqs i).st = .processed ∧ s'.panicked = false := by
+  intro s hl hw hi hm hd he hmid hc
+  exact scan_delivers cfg s mid i (invA_run cfg pre (St.init t0) (invA_init t0)) hl hw hi hm hd he hmid hc
+
+/-- non-vacuity: two waiters, quota exhausted by a third request, the clock passes the TTL; a
+continuation with an arrival and a clock advance in between the watcher's steps: both get their
+verdict (result `timeout`). -/
+example :
+    let cfg : Cfg := ⟨5, 1000, 0, 1000⟩
+    let pre : List Act := [.arrive 1, .register 0, .push 0, .arrive 2, .register 1, .push 1, .advance 1100]
+    let mid : List Act := [.wStep 0, .arrive 3, .wStep 0, .advance 5, .wStep 0, .wStep 0, .wStep 0]
+    let s := run cfg (St.init 0) pre
+    let s' := run cfg s (.wScan :: mid)
+    s.loop = .idle ∧ s.watcher = .idle ∧ s.n = 2 ∧ (s.reqs 0).dones = 0 ∧ (s.reqs 0).arrival + cfg.ttl < s.now ∧
+    2 * s.n + 1 ≤ mid.count (.wStep 0) ∧
+    (s'.reqs 0).res = .timeout ∧ (s'.reqs 0).dones = 1 ∧ (s'.reqs 1).dones = 1 := by
+  decide +kernel
+
 /-! ### (D) shutdown releases every waiter and never crashes -/
 
 /-- Under every schedule: once `StopAll` is over (`loop = exited`), every request that was in the
@@ -279,6 +333,20 @@ theorem drain_releases_all (cfg : Cfg) (t0 : Nat) (acts : List Act) :
     rcases (hA.own i).1 hst with h | h
     · rw [he] at h; cases h
     · exact h
+
+/-- The same on the observable history: once `StopAll` is over and the watcher has finished its
+scan, nobody of the snapshot is still waiting in the history (queued without verdict) — the conjunct
+`drainReleases` of the judge, for the requests that were there at shutdown; requests that arrive
+after shutdown are outside the property. -/
+theorem shutdown_leaves_nobody_waiting (cfg : Cfg) (t0 : Nat) (acts : List Act) :
+    let s := run cfg (St.init t0) acts
+    s.loop = .exited → s.watcher = .idle → ∀ x ∈ waiting s.trace, x.1 ∉ s.drainSet := by
+  intro s he hw x hx hmem
+  have hall := invAll_run cfg acts (St.init t0) (invAll_init cfg t0)
+  have hst := (hall.o1.w2 x hx).2.2.1
+  rcases (drain_releases_all cfg t0 acts).2 he x.1 hmem with h | h
+  · exact hst h.1
+  · rw [hw] at h; exact h.2
 
 /-- non-vacuity (the former F06c witness, `corpus/C06/regress-F06c.ops`): requests 0 and 1 are
 allowed but their removal has not run when the context is cancelled; `StopAll` finds both in the
@@ -308,20 +376,39 @@ theorem driver_run_is_model_run (cfg : Cfg) (t0 : Nat) (ops : List Op) :
       run cfg (St.init t0) (schedule cfg { s := St.init t0 } ops) :=
   runOps_eq_run cfg ops _
 
-/-- Connection theorem for the conjuncts (V), (Q) and "no crash" of the judge's predicate: they are
-true of the model's history on EVERY driver run (shutdown included).  The other conjuncts — (P),
-FIFO, (B), (T) — are related to the model by the state-level theorems above over all schedules; on
-the trace they are evaluated by the judge on both sides, not proved. -/
-theorem driver_runs_verdicts (cfg : Cfg) (t0 : Nat) (ops : List Op) :
-    let h := (runOps cfg { s := St.init t0 } ops).s.trace.reverse
-    scan verdictOk [] h = true ∧ scan quotaOk [] h = true ∧ scan noPanic [] h = true := by
-  intro h
-  have e := driver_run_is_model_run cfg t0 ops
-  have h1 := one_verdict_observable cfg t0 (schedule cfg { s := St.init t0 } ops)
-  have h2 := (allowed_implies_quota cfg t0 (schedule cfg { s := St.init t0 } ops)).2
-  simp only [h]
-  rw [e]
-  exact ⟨h1.1, h2, h1.2⟩
+/-- The safety part of the Spec predicate — (V) one verdict, (Q) quota, (P) priority, (F) FIFO by
+arrival, (B) bound, (T-lower) no early time-out, no crash: every conjunct the judge evaluates except
+timeliness (`holdsTimely`: verdict no later than TTL + slack, nobody left waiting after shutdown) —
+is TRUE of the observable history of EVERY schedule of the model, shutdown at any point included. -/
+theorem safety_all_schedules (cfg : Cfg) (t0 : Nat) (acts : List Act) :
+    holdsSafety cfg (run cfg (St.init t0) acts).trace.reverse = true := by
+  have h := invAll_run cfg acts (St.init t0) (invAll_init cfg t0)
+  unfold holdsSafety
+  simp only [scan_reverse, Bool.and_eq_true]
+  exact ⟨⟨⟨⟨⟨⟨h.t.tv, h.t.tq⟩, h.o4.tpr⟩, h.o4.tff⟩, h.o4.tbd⟩, h.o4.ttl⟩, h.t.tp⟩
+
+/-- Connection theorem: on every driver run (any list of macro-operations: what `lvdriver_c06 run`
+executes and the harness replays on the real processor) the model's history satisfies the safety
+part of the judge's predicate.  So a judge failure in one of these conjuncts on the
+implementation's history is, by construction, a divergence from the proved model.  (The timeliness
+part stays a labelled test on the implementation; in the model see `eventually_verdict`.) -/
+theorem driver_runs_holds (cfg : Cfg) (t0 : Nat) (ops : List Op) :
+    holdsSafety cfg (runOps cfg { s := St.init t0 } ops).s.trace.reverse = true := by
+  rw [driver_run_is_model_run]
+  exact safety_all_schedules cfg t0 _
+
+/-- non-vacuity: the histories of the regression scenarios contain every kind of event the
+conjuncts speak about (allowed and rejected verdicts, refused attempts, a request overtaken by a
+more urgent later arrival) and the full predicate `holds` — safety and timeliness — is true of them. -/
+example :
+    let cfg : Cfg := ⟨3, 1000, 1, 1000⟩
+    let h := (runOps cfg { s := St.init 1700000000000 }
+      [.arrive 5, .arrive 5, .tick, .arrive 1, .tick, .tick, .tick, .tick, .tick, .tick, .tick, .tick, .tick, .tick,
+       .tick]).s.trace.reverse
+    holdsSafety cfg h = true ∧ holdsTimely cfg h = true ∧
+    (h.filter fun e => match e with | .done _ _ _ => true | _ => false) =
+      [.done 0 true 1700000000100, .done 2 true 1700000001000, .done 1 false 1700000001100] := by
+  decide +kernel
 
 /-- ... and the size bound after every driver run (hence after every prefix of one). -/
 theorem driver_runs_bound (cfg : Cfg) (t0 : Nat) (ops : List Op) :
